@@ -51,6 +51,14 @@ def cases(ctx):
                 yield {"k": "script", "hex": wire.detok([a, b]).hex(), "tag": "exh2"}
     if S == 0:
         ctx.exhaustive.append("all scripts of 1 and 2 tokens over a %d-token alphabet (every plain opcode, all 256 one-byte pushes, 2/75/76/255/256-byte pushes)" % len(A))
+    # exhaustive over short scripts from a structural alphabet: several ELSE per IF, stray ELSE/ENDIF, empty branches (only those the parser accepts are judged)
+    SA = [0x63, 0x64, 0x67, 0x68, 0x51, 0x00]
+    kk = 0
+    for L in range(2, 7):
+        for combo in itertools.product(SA, repeat=L):
+            kk += 1
+            if kk % N == S:
+                yield {"k": "script", "hex": bytes(combo).hex(), "tag": "structural", "may_reject": True}
     n = 20000 if t else 50
     for i in range(n):
         depth = r.choice([1, 2, 4, 8, 20, 50])
@@ -106,6 +114,9 @@ def judge(ctx, case):
         ctx.hit("digit_push")
     big = len(raw) > 20000
     r = ctx.call({"op": "asm", "hex": case["hex"], "no_text": False})
+    if "err" in r and case.get("may_reject"):
+        ctx.hit("structural_rejected_by_parser")
+        return
     if "ok" not in r:
         ctx.ev()
         ctx.viol("script from the accepted grammar could not be rendered", {"hex": case["hex"][:200], "resp": str(r)[:200]})
